@@ -28,7 +28,8 @@ RULE = ("Enumeration: every string of length <= 3 (quick) / <= 4 (thorough) over
         "(A, A-OX, AT, CAL x ACP, PCP, PKS_PP; bare, behind Interface / X, followed by TE / a new module) at the "
         "start of the downstream gene behind every single symbol and every head fragment, ++ and --. "
         "Random: Hypothesis strings of length 0-14 over all 60 profile names with KS subtypes (none, the five "
-        "ksdomains.hmm names, a nested transATor name, two ambiguous internal hits), start positions increasing "
+        "ksdomains.hmm names, a nested transATor name - also attached top-down with the names read in between, as "
+        "find_subtypes does in two passes -, two ambiguous internal hits), start positions increasing "
         "with equal-start ties and shuffled input order as classes; a mixture of uniform strings, strings made of "
         "mutated module templates, and for gene pairs / chains of 2-4 genes a module template cut in two at a random "
         "point (head | tail, optional lone KR after the tail) so that head/tail pairs are mergeable by "
